@@ -13,6 +13,7 @@ import (
 	_ "verifharness/cond"
 	_ "verifharness/conv"
 	_ "verifharness/handles"
+	_ "verifharness/mig"
 	_ "verifharness/ops"
 	_ "verifharness/reads"
 	_ "verifharness/rtrip"
